@@ -121,6 +121,22 @@ func (fa facts) apply(info *types.Info, e Event) bool {
 				if v := absValue(info, e.Rhs[i]); v != "" {
 					fa[k] = v
 				}
+				// fields of a composite literal with constant values
+				rh := ast.Unparen(e.Rhs[i])
+				if u, ok := rh.(*ast.UnaryExpr); ok && u.Op == token.AND {
+					rh = ast.Unparen(u.X)
+				}
+				if cl, ok := rh.(*ast.CompositeLit); ok {
+					for _, el := range cl.Elts {
+						if kv, ok := el.(*ast.KeyValueExpr); ok {
+							if id, ok := kv.Key.(*ast.Ident); ok {
+								if v := absValue(info, kv.Value); v != "" {
+									fa[k+"."+id.Name] = v
+								}
+							}
+						}
+					}
+				}
 			}
 		}
 	case EvCall:
